@@ -1367,6 +1367,7 @@ fn rustfmt(src: &str) -> Option<String> {
 
 #[derive(Default, Clone)]
 struct ExtractSpec {
+    to_block_end: bool,
     no_loop_isolation: bool,
     file: String,
     impl_key: Option<String>,
@@ -1528,14 +1529,14 @@ impl Unit {
             use syn::spanned::Spanned;
             struct Finder<'a> {
                 needle: &'a str,
-                cands: Vec<(usize, Stmt)>,
+                cands: Vec<(usize, Stmt, Vec<Stmt>)>,
             }
             impl<'a, 'ast> syn::visit::Visit<'ast> for Finder<'a> {
                 fn visit_block(&mut self, b: &'ast syn::Block) {
-                    for st in &b.stmts {
+                    for (k, st) in b.stmts.iter().enumerate() {
                         let t = tok(st);
                         if t.contains(self.needle) {
-                            self.cands.push((t.len(), st.clone()));
+                            self.cands.push((t.len(), st.clone(), b.stmts[k + 1..].to_vec()));
                         }
                     }
                     syn::visit::visit_block(self, b);
@@ -1562,6 +1563,14 @@ impl Unit {
             let sig_text = spec.sig_text.as_ref().unwrap_or_else(|| die("extract with //@anchor needs //@sig"));
             let item: syn::ItemFn = syn::parse_str(&format!("{sig_text} {{}}")).unwrap_or_else(|e| die(&format!("cannot parse //@sig: {e}")));
             let mut block: syn::Block = parse_quote! { { #stmt } };
+            let mut sp_end = sp.end().line;
+            if spec.to_block_end {
+                // the slice runs from the anchor statement to the END of its enclosing block
+                for st in &f.cands[spec.anchor_up].2 {
+                    sp_end = st.span().end().line;
+                    block.stmts.push(st.clone());
+                }
+            }
             match &spec.yield_ident {
                 Some(y) => {
                     let ye: Expr = syn::parse_str(y).unwrap_or_else(|_| die("cannot parse //@yield expression"));
@@ -1571,10 +1580,10 @@ impl Unit {
             }
             log.push(format!(
                 "R-SLICE statement `{}` of {}::{} (lines {}-{}) verified as a function of its free variables (signature from the unit file); the rest of the enclosing function is NOT under contract here",
-                needle, spec.file, spec.name, sp.start().line, sp.end().line
+                needle, spec.file, spec.name, sp.start().line, sp_end
             ));
             found.start_line = sp.start().line;
-            found.end_line = sp.end().line;
+            found.end_line = sp_end;
             found.sig = item.sig;
             found.vis = parse_quote! { pub };
             found.attrs = vec![];
@@ -2584,6 +2593,7 @@ impl Unit {
                                     "end" => break,
                                     "contract" => sec = Sec::Contract,
                                     "anchor" => spec.stmt_anchor = Some(rest.to_string()),
+                                    "to-block-end" => spec.to_block_end = true,
                                     "anchor-up" => spec.anchor_up = rest.parse().unwrap_or_else(|_| die("bad //@anchor-up")),
                                     "sig" => spec.sig_text = Some(rest.to_string()),
                                     "yield" => spec.yield_ident = Some(rest.to_string()),
